@@ -2,10 +2,19 @@ package yqlib
 
 import (
 	"container/list"
+	"fmt"
 )
+
+// an expression that evals itself (a: "eval(.a)") would otherwise recurse until the stack is gone
+const maxEvalDepth = 100
 
 func evalOperator(d *dataTreeNavigator, context Context, expressionNode *ExpressionNode) (Context, error) {
 	log.Debugf("Eval")
+	if context.evalDepth >= maxEvalDepth {
+		return Context{}, fmt.Errorf("eval is nested more than %v levels deep", maxEvalDepth)
+	}
+	evalContext := context
+	evalContext.evalDepth++
 	pathExpStrResults, err := d.GetMatchingNodes(context.ReadOnlyClone(), expressionNode.RHS)
 	if err != nil {
 		return Context{}, err
@@ -29,7 +38,7 @@ func evalOperator(d *dataTreeNavigator, context Context, expressionNode *Express
 
 	for matchEl := context.MatchingNodes.Front(); matchEl != nil; matchEl = matchEl.Next() {
 		for expIndex = 0; expIndex < len(expressions); expIndex++ {
-			result, err := d.GetMatchingNodes(context, expressions[expIndex])
+			result, err := d.GetMatchingNodes(evalContext, expressions[expIndex])
 			if err != nil {
 				return Context{}, err
 			}
